@@ -222,13 +222,14 @@ func (d *Decoder) readClassDef() (interface{}, error) {
 	if count < 0 {
 		return nil, newCodecError("ReadClassDef", "negative field count %d", count)
 	}
-	fields := make([]string, count)
+	// the count is only declared by the input: the list grows with the names that are really there
+	fields := make([]string, 0, preallocLen(int(count)))
 	for i := 0; i < int(count); i++ {
 		s, err := d.readString(_tagRead)
 		if err != nil {
 			return nil, newCodecError("ReadClassDef", err)
 		}
-		fields[i] = s
+		fields = append(fields, s)
 	}
 	cls := ClassDef{clsName, fields}
 	return cls, nil
